@@ -22,7 +22,7 @@ func init() {
 		Explanation: "Introspection gate and attribute provenance: (gate) in every materialised executor each call of introspection.WrapSchema/WrapTypeFromDef/WrapTypeFromType, and each read of the embedded SDL `sources` outside " +
 			"package initialisation (federation _service), is edge-dominated by DisableIntrospection == false; introspection's wrapper types have only unexported fields, so no other code can fabricate a description; " +
 			"(flag-writers) OperationContext.DisableIntrospection is stored only by the executor (constant true) and by extension.Introspection (constant false); (own-attributes) in every composite literal of " +
-			"introspection.Field/InputValue/EnumValue/Directive all schema-node operands are the very node the element's Name is read from, and sibling literals of one wrapper type set the same keys; (deprecated-iff-directive) EnumValue/Field/InputValue.IsDeprecated is exactly the presence of the element's own deprecation directive (a bare @deprecated without reason included); (default-only-absent) the default-value renderer returns nil only for an absent default.",
+			"introspection.Field/InputValue/EnumValue/Directive all schema-node operands are the very node the element's Name is read from, and sibling literals of one wrapper type set the same keys; (deprecated-iff-directive) EnumValue/Field/InputValue.IsDeprecated is exactly the presence of the element's own deprecation directive (a bare @deprecated without reason included); (default-only-absent) the default-value renderer returns nil only for an absent default. (stateless-introspection) package introspection writes no package-level state outside initialisation.",
 		NotDecided:  "that the introspection result rebuilds the schema exactly (value-level: defaults' text, ordering, possible-type relations)",
 		Assumptions: []string{"user resolvers do not expose the schema through their own fields"},
 	})
